@@ -1,7 +1,31 @@
 def run(ctx):
-    """C09.choose: 'blockwise' is chosen only when the planner said so or the user asked; arg-reductions never get blockwise."""
-    from . import plan_proofs
+    """C09.choose: 'blockwise' is chosen only when the planner said so or the user asked; arg-reductions never get blockwise.
+    C09.block_selection: _normalize_indexes selects exactly the requested blocks of a one-axis block grid, ascending."""
+    from . import plan_proofs, tree_proofs
 
-    from . import tree_proofs
+    return plan_proofs.run(ctx, which=("choose_method",), pid="C09") + " " + tree_proofs.run(ctx, "C09") + " " + normalize_indexes(ctx, "C09")
 
-    return plan_proofs.run(ctx, which=("choose_method",), pid="C09") + " " + tree_proofs.run(ctx, "C09")
+
+def normalize_indexes(ctx, pid):
+    import vlib.pyvc.prims as P
+
+    from ..contracts import normindex as K
+    from ..pyvc.run import add_to_ctx
+
+    orig = P.Prims.register_defaults
+
+    def reg(self):
+        orig(self)
+        K.register_models(self)
+
+    n = 0
+    P.Prims.register_defaults = reg
+    try:
+        for c, callees in K.all_normalize():
+            c.prefix = pid + c.prefix[3:]
+            ex, obs = add_to_ctx(ctx, c, callees)
+            n += len(obs)
+    finally:
+        P.Prims.register_defaults = orig
+    return (f"_normalize_indexes (one label axis of B blocks, B and the request symbolic; data of rank 1 / 2): {n} obligations: one indexer per axis, leading axes whole, the label-axis indexer - integer, slice or "
+            "open mesh, whichever branch - selects exactly the requested blocks, each once, ascending; slice bounds are None only where None means the same bound.")
